@@ -14,12 +14,12 @@ type verifRecEnt struct {
 }
 
 var (
-	verifRecT  [8]verifRecEnt
+	verifRecT  [10]verifRecEnt
 	verifNRecT int
 )
 
 // Trees whose sibling names share string prefixes.
-var verifRecPaths = [...]string{"/r", "/r/dir1", "/r/dir10", "/r/dir1/x", "/r/sub", "/r/sub2", "/r2", "/r2/dir1"}
+var verifRecPaths = [...]string{"/r", "/r/dir1", "/r/dir10", "/r/dir1/x", "/r/sub", "/r/sub2", "/r2", "/r2/dir1", "/r/dir1/x/y"}
 
 func verifSetupRec(w *inotify, n int) {
 	enableRecurse = true
@@ -68,11 +68,13 @@ func H_rec_rename() {
 	w := verifNewInotify(0)
 	verifSetupRec(w, len(verifRecPaths))
 	// which inner directory is renamed, and to what
-	type mv struct{ parent, old, new string }
-	moves := [...]mv{{"/r", "dir1", "new"}, {"/r", "sub", "moved"}, {"/r", "dir10", "d"}, {"/r/dir1", "x", "y"}, {"/r", "dir1", "dir100"}}
+	type mv struct{ parent, old, new, toParent string }
+	moves := [...]mv{{"/r", "dir1", "new", "/r"}, {"/r", "sub", "moved", "/r"}, {"/r", "dir10", "d", "/r"}, {"/r/dir1", "x", "y2", "/r/dir1"}, {"/r", "dir1", "dir100", "/r"},
+		{"/r/dir1", "x", "x2", "/r/sub"}, {"/r", "dir1", "dir1", "/r/sub2"}}
 	m := moves[verifChoose("move", len(moves))]
 	pi := verifRecIndex(m.parent)
-	oldp, newp := m.parent+"/"+m.old, m.parent+"/"+m.new
+	ti := verifRecIndex(m.toParent)
+	oldp, newp := m.parent+"/"+m.old, m.toParent+"/"+m.new
 	oi := verifRecIndex(oldp)
 	c := verifU32("cookie")
 	verifAssume(c != 0)
@@ -84,7 +86,7 @@ func H_rec_rename() {
 	// the kernel resolves the new name to the moved directory's inode: its existing watch
 	verifK.addResolve = 0
 	verifK.marks[0] = verifMark{state: kLive, wd: int32(verifRecT[oi].wd), ino: 0}
-	ev2, ok2 := verifDeliverName(w, verifRecT[pi].wd, unix.IN_MOVED_TO|unix.IN_ISDIR, c, m.new)
+	ev2, ok2 := verifDeliverName(w, verifRecT[ti].wd, unix.IN_MOVED_TO|unix.IN_ISDIR, c, m.new)
 	verifAssert(ok2 && ev2.Op == Create && ev2.Name == newp && ev2.renamedFrom == oldp, "rename of an inner directory: Create(new path) carrying the old one")
 	for i := 0; i < verifNRecT; i++ {
 		e := verifRecT[i]
@@ -202,7 +204,20 @@ func H_rec_add() {
 	enableRecurse = true
 	w := verifNewInotify(0)
 	verifK.nIno = 8
-	shape := verifChoose("tree", 3)
+	shape := verifChoose("tree", 4)
+	if shape == 3 {
+		// a directory whose name merely ends in three dots is an ordinary path
+		verifK.addResolve = 0
+		verifAssert(w.Add("/r/cache...") == nil, "Add of a path whose last element ends in dots")
+		wd, listed := w.watches.path["/r/cache..."]
+		verifAssert(listed && len(w.watches.path) == 1, "only a last element that IS \"...\" makes a watch recursive; anything else is watched as given")
+		if listed {
+			verifAssert(!w.watches.wd[wd].recurse, "not a recursive watch")
+		}
+		verifAssert(verifK.lastPath == "/r/cache...", "the kernel watch is on the path as given")
+		verifReach("rec-add-dots")
+		return
+	}
 	switch shape {
 	case 0:
 		verifK.walk = []verifWalkEnt{{"/r", true}, {"/r/f", false}, {"/r/dir1", true}, {"/r/dir1/x", true}, {"/r/dir10", true}}
